@@ -38,6 +38,19 @@ def scenario(big: bool = False) -> Any:
         if d.pop("burst"):
             for m in d["msgs"]:
                 m["at"] = 0.0
+        if d.pop("api_restart"):
+            # the worker is run with taskiq.api.run_receiver_task; while it is idle the broker subscription breaks A times in a
+            # row (the runner subscribes again each time), then more messages arrive: every one still runs exactly once
+            A = d["A"] or 2
+            good = [m for m in d["msgs"] if m["kind"] in ("async", "sync")][:6] or [{"kind": "async", "at": 0.0, "dur": 0.1, "out": "ret", "ack": "sync", "timeout": None}]
+            first, second = good[: max(1, len(good) // 2)], good[max(1, len(good) // 2):] or [dict(good[0])]
+            for m in first:
+                m["at"], m["dur"], m["timeout"] = min(m["at"], 0.5), min(m["dur"], 0.35), None
+                m.pop("cleanup", None)
+            for j, m in enumerate(second):
+                m["at"], m["timeout"] = 5.0 + 0.1 * j, None
+            d["msgs"] = first + second
+            d.update({"A": A, "N": None, "stop": None, "ends": False, "via_api": True, "stream_fault": [len(first)] * min(A, 3)})
         d["horizon"] = cm.horizon_for(d)
         d["drain"] = 0.0
         ph = d.pop("pre_hook")
@@ -58,7 +71,8 @@ def scenario(big: bool = False) -> Any:
         "register_at": cm.times(),
         # an observing pre_execute middleware written as a sync function, an async one, or a plain function returning a coroutine /
         # a Future / another awaitable (all allowed by the hook's signature): messages still run exactly once
-        "pre_hook": st.sampled_from([None, None, None, False, True, "deferred", "future", "awaitable"]),      # instant at which the task `dyntask` gets registered on the running worker
+        "pre_hook": st.sampled_from([None, None, None, False, True, "deferred", "future", "awaitable"]),
+        "api_restart": st.sampled_from([False] * 7 + [True]),      # instant at which the task `dyntask` gets registered on the running worker
     }).map(fin)
 
 
@@ -137,7 +151,7 @@ def run_case(sc: Dict[str, Any]) -> Outcome:
     out.nontrivial = bool(inflight or mixed)
     out.classes = [c for c, f in (("inflight_at_decision", inflight), ("mixed_valid_skipped", mixed),
                                   ("take_after_decision", lookahead_done), ("has_N", sc.get("N")),
-                                  ("has_stop", sc.get("stop") is not None), ("returned", res["returned"]),
+                                  ("has_stop", sc.get("stop") is not None), ("returned", res["returned"]), ("run_receiver_task_resubscribes", bool(sc.get("via_api"))),
                                   ("dyn_before_and_after_registration", ireg is not None and any(specs[i]["kind"] == "dyn" and takepos[i] < ireg for i in taken)
                                    and any(specs[i]["kind"] == "dyn" and takepos[i] > ireg for i in taken))) if f]
 
